@@ -85,8 +85,7 @@ P = {
                   "code and that the property text allows: for jwt a bearer token that is not a parseable JWS (empty, opaque, alg none, "
                   "unknown alg) is none; a lower-case scheme ('basic', 'bearer') is another scheme; a body parameter present twice is absent; "
                   "of several Authorization field lines the joined value counts (so the scheme of the first line decides). Observed, not "
-                  "C04's: a basic_auth password containing ':' can never be presented; generic caches any 2xx body and does not re-assert a "
-                  "cached payload's session lifespan.",
+                  "C04's: a basic_auth password containing ':' can never be presented; generic caches any 2xx body, also one that is not JSON.",
     "assumptions": ["each case builds its own prototypes, rule and cache; requests of a case are sent one after the other (no concurrency)",
                     "a call that hits the 80 ms time limit although its endpoint is not a slow one (busy machine) makes the driver run the "
                     "case again (at most 3 times; counted in the histogram as rerun:unexpected-timeout)"],
